@@ -647,6 +647,12 @@ class Unit:
         self.rw = Rewriter()
         self.spans = []          # (relpath, item, sha)
         self.functions = []      # names of extracted functions (for obligation counting)
+        self.scans = []          # syntactic frame conditions on extracted text: (props, name, ok, description)
+
+    def scan(self, props, name, ok, desc):
+        """a syntactic obligation on the extracted text (e.g. "the log is written only through fetch_or"); reported in
+        the evidence under engine `scan`, never presented as a solver-discharged proof"""
+        self.scans.append((props, name, bool(ok), desc))
 
     def raw(self, text):
         self.parts.append(text)
